@@ -379,45 +379,50 @@ void __wrap_qsort(void *base, size_t nmemb, size_t size, int (*cmp)(const void *
     __real_qsort(base, nmemb, size, cmp);
 }
 
-/* atomics: sequentially consistent, each one a choice point and an atomic event */
+/* atomics: sequentially consistent, each one an atomic event and - unless the location is in memory only the calling
+ * thread can reach (its stack, its own heap blocks, its private regions), where no other thread can observe the order - a
+ * choice point */
+static inline void atomic_point(const void *addr) {
+    int t = tls_tid;
+    if (t < 0 || !ACTIVE) {
+        return;
+    }
+    vs_event tmp;
+    classify(t, (uintptr_t)addr, &tmp);
+    if (tmp.klass == VS_K_OWN_STACK || tmp.klass == VS_K_OWN_HEAP || tmp.klass == VS_K_OWN_PRIVATE) {
+        return;
+    }
+    point(1, 0);
+}
+
 #define ATOMIC_OPS(N, T)                                                                                           \
     T __tsan_atomic##N##_load(const volatile T *a, int mo) {                                                      \
         (void)mo;                                                                                                  \
-        if (tls_tid >= 0 && ACTIVE) {                                                                              \
-            point(1, 0);                                                                                           \
-        }                                                                                                          \
+        atomic_point((const void *)a);                                                                             \
         access_event((void *)a, sizeof(T), 0, 1, RA);                                                              \
         return __atomic_load_n(a, __ATOMIC_SEQ_CST);                                                               \
     }                                                                                                              \
     void __tsan_atomic##N##_store(volatile T *a, T v, int mo) {                                                    \
         (void)mo;                                                                                                  \
-        if (tls_tid >= 0 && ACTIVE) {                                                                              \
-            point(1, 0);                                                                                           \
-        }                                                                                                          \
+        atomic_point((const void *)a);                                                                             \
         access_event((void *)a, sizeof(T), 1, 1, RA);                                                              \
         __atomic_store_n(a, v, __ATOMIC_SEQ_CST);                                                                  \
     }                                                                                                              \
     T __tsan_atomic##N##_exchange(volatile T *a, T v, int mo) {                                                    \
         (void)mo;                                                                                                  \
-        if (tls_tid >= 0 && ACTIVE) {                                                                              \
-            point(1, 0);                                                                                           \
-        }                                                                                                          \
+        atomic_point((const void *)a);                                                                             \
         access_event((void *)a, sizeof(T), 1, 1, RA);                                                              \
         return __atomic_exchange_n(a, v, __ATOMIC_SEQ_CST);                                                        \
     }                                                                                                              \
     T __tsan_atomic##N##_fetch_add(volatile T *a, T v, int mo) {                                                   \
         (void)mo;                                                                                                  \
-        if (tls_tid >= 0 && ACTIVE) {                                                                              \
-            point(1, 0);                                                                                           \
-        }                                                                                                          \
+        atomic_point((const void *)a);                                                                             \
         access_event((void *)a, sizeof(T), 1, 1, RA);                                                              \
         return __atomic_fetch_add(a, v, __ATOMIC_SEQ_CST);                                                         \
     }                                                                                                              \
     T __tsan_atomic##N##_fetch_sub(volatile T *a, T v, int mo) {                                                   \
         (void)mo;                                                                                                  \
-        if (tls_tid >= 0 && ACTIVE) {                                                                              \
-            point(1, 0);                                                                                           \
-        }                                                                                                          \
+        atomic_point((const void *)a);                                                                             \
         access_event((void *)a, sizeof(T), 1, 1, RA);                                                              \
         return __atomic_fetch_sub(a, v, __ATOMIC_SEQ_CST);                                                         \
     }                                                                                                              \
@@ -439,18 +444,14 @@ void __wrap_qsort(void *base, size_t nmemb, size_t size, int (*cmp)(const void *
     int __tsan_atomic##N##_compare_exchange_strong(volatile T *a, T *c, T v, int mo, int fmo) {                    \
         (void)mo;                                                                                                  \
         (void)fmo;                                                                                                 \
-        if (tls_tid >= 0 && ACTIVE) {                                                                              \
-            point(1, 0);                                                                                           \
-        }                                                                                                          \
+        atomic_point((const void *)a);                                                                             \
         access_event((void *)a, sizeof(T), 1, 1, RA);                                                              \
         return __atomic_compare_exchange_n(a, c, v, 0, __ATOMIC_SEQ_CST, __ATOMIC_SEQ_CST);                        \
     }                                                                                                              \
     int __tsan_atomic##N##_compare_exchange_weak(volatile T *a, T *c, T v, int mo, int fmo) {                      \
         (void)mo;                                                                                                  \
         (void)fmo;                                                                                                 \
-        if (tls_tid >= 0 && ACTIVE) {                                                                              \
-            point(1, 0);                                                                                           \
-        }                                                                                                          \
+        atomic_point((const void *)a);                                                                             \
         access_event((void *)a, sizeof(T), 1, 1, RA);                                                              \
         return __atomic_compare_exchange_n(a, c, v, 0, __ATOMIC_SEQ_CST, __ATOMIC_SEQ_CST);                        \
     }                                                                                                              \
